@@ -71,6 +71,10 @@ type streamableHTTPClientTransport struct {
 	// This field is set by auto-detection when no session ID is provided in the initialize response.
 	isStateless bool
 
+	// stateMu guards sessionID, lastEventID, isStateless and enableGetSSE, which are written by
+	// callers and read by the GET SSE goroutine and by concurrent calls.
+	stateMu sync.RWMutex
+
 	// Logger for this client transport.
 	logger Logger
 
@@ -192,6 +196,34 @@ func withTransportHTTPReqHandlerOption(option HTTPReqHandlerOption) transportOpt
 	}
 }
 
+// currentSessionID returns the session ID under the state lock.
+func (t *streamableHTTPClientTransport) currentSessionID() string {
+	t.stateMu.RLock()
+	defer t.stateMu.RUnlock()
+	return t.sessionID
+}
+
+// currentLastEventID returns the last event ID under the state lock.
+func (t *streamableHTTPClientTransport) currentLastEventID() string {
+	t.stateMu.RLock()
+	defer t.stateMu.RUnlock()
+	return t.lastEventID
+}
+
+// setLastEventID records the last event ID under the state lock.
+func (t *streamableHTTPClientTransport) setLastEventID(eventID string) {
+	t.stateMu.Lock()
+	t.lastEventID = eventID
+	t.stateMu.Unlock()
+}
+
+// getSSEEnabled reports whether GET SSE is enabled, under the state lock.
+func (t *streamableHTTPClientTransport) getSSEEnabled() bool {
+	t.stateMu.RLock()
+	defer t.stateMu.RUnlock()
+	return t.enableGetSSE
+}
+
 // start is a no-op for streamableHTTPClientTransport.
 func (t *streamableHTTPClientTransport) start(ctx context.Context) error {
 	return nil
@@ -254,15 +286,15 @@ func (t *streamableHTTPClientTransport) send(
 	// Set request headers - accept both SSE and JSON responses
 	httpReq.Header.Set(httputil.ContentTypeHeader, httputil.ContentTypeJSON)
 	httpReq.Header.Set(httputil.AcceptHeader, httputil.ContentTypeJSON+", "+httputil.ContentTypeSSE)
-	if t.sessionID != "" && !t.isStateless {
-		httpReq.Header.Set(httputil.SessionIDHeader, t.sessionID)
+	if sessionID := t.currentSessionID(); sessionID != "" && !t.isStatelessMode() {
+		httpReq.Header.Set(httputil.SessionIDHeader, sessionID)
 	}
 
 	// If lastEventID is provided, attach it to the request
 	if options != nil && options.lastEventID != "" {
 		httpReq.Header.Set(httputil.LastEventIDHeader, options.lastEventID)
-	} else if t.lastEventID != "" {
-		httpReq.Header.Set(httputil.LastEventIDHeader, t.lastEventID)
+	} else if lastEventID := t.currentLastEventID(); lastEventID != "" {
+		httpReq.Header.Set(httputil.LastEventIDHeader, lastEventID)
 	}
 
 	// Add custom headers
@@ -287,12 +319,18 @@ func (t *streamableHTTPClientTransport) send(
 
 	// Handle session ID
 	if sessionID := httpResp.Header.Get(httputil.SessionIDHeader); sessionID != "" {
-		t.setSessionID(sessionID)
+		t.stateMu.Lock()
+		t.sessionID = sessionID
 		t.isStateless = false
-	} else if req.Method == MethodInitialize && !t.isStateless {
-		// If this is an initialize request and no session ID was received, auto-detect as stateless mode
-		t.isStateless = true
-		t.enableGetSSE = false // Disable GET SSE in stateless mode
+		t.stateMu.Unlock()
+	} else if req.Method == MethodInitialize {
+		t.stateMu.Lock()
+		if !t.isStateless {
+			// If this is an initialize request and no session ID was received, auto-detect as stateless mode
+			t.isStateless = true
+			t.enableGetSSE = false // Disable GET SSE in stateless mode
+		}
+		t.stateMu.Unlock()
 	}
 
 	// Check content type
@@ -464,7 +502,7 @@ func (t *streamableHTTPClientTransport) handleSSEResponse(
 
 			// Process event ID
 			if strings.HasPrefix(line, "id:") {
-				t.lastEventID = strings.TrimSpace(strings.TrimPrefix(line, "id:"))
+				t.setLastEventID(strings.TrimSpace(strings.TrimPrefix(line, "id:")))
 				continue
 			}
 
@@ -523,8 +561,8 @@ func (t *streamableHTTPClientTransport) sendNotification(ctx context.Context, no
 	// Set request headers - must accept both JSON and SSE responses per MCP specification.
 	httpReq.Header.Set(httputil.ContentTypeHeader, httputil.ContentTypeJSON)
 	httpReq.Header.Set(httputil.AcceptHeader, httputil.ContentTypeJSON+", "+httputil.ContentTypeSSE)
-	if t.sessionID != "" {
-		httpReq.Header.Set(httputil.SessionIDHeader, t.sessionID)
+	if sessionID := t.currentSessionID(); sessionID != "" {
+		httpReq.Header.Set(httputil.SessionIDHeader, sessionID)
 	}
 
 	// Add custom headers
@@ -556,7 +594,7 @@ func (t *streamableHTTPClientTransport) sendNotification(ctx context.Context, no
 
 	// Handle session ID
 	if sessionID := httpResp.Header.Get(httputil.SessionIDHeader); sessionID != "" {
-		t.sessionID = sessionID
+		t.setSessionID(sessionID)
 	}
 
 	// Check status code
@@ -599,12 +637,14 @@ func (t *streamableHTTPClientTransport) close() error {
 
 // GetSessionID gets the session ID
 func (t *streamableHTTPClientTransport) getSessionID() string {
-	return t.sessionID
+	return t.currentSessionID()
 }
 
 // SetSessionID sets the session ID
 func (t *streamableHTTPClientTransport) setSessionID(sessionID string) {
+	t.stateMu.Lock()
 	t.sessionID = sessionID
+	t.stateMu.Unlock()
 }
 
 // Establish GET SSE connection
@@ -645,7 +685,8 @@ func (t *streamableHTTPClientTransport) establishGetSSE(parentCtx context.Contex
 // Connect to GET SSE endpoint
 func (t *streamableHTTPClientTransport) connectGetSSE(ctx context.Context) error {
 	// Check if there's a session ID
-	if t.sessionID == "" {
+	sessionID := t.currentSessionID()
+	if sessionID == "" {
 		return fmt.Errorf("cannot establish GET SSE connection: session ID is empty")
 	}
 
@@ -660,9 +701,9 @@ func (t *streamableHTTPClientTransport) connectGetSSE(ctx context.Context) error
 
 	// Set necessary headers
 	req.Header.Set(httputil.AcceptHeader, httputil.ContentTypeSSE)
-	req.Header.Set(httputil.SessionIDHeader, t.sessionID)
-	if t.lastEventID != "" {
-		req.Header.Set(httputil.LastEventIDHeader, t.lastEventID)
+	req.Header.Set(httputil.SessionIDHeader, sessionID)
+	if lastEventID := t.currentLastEventID(); lastEventID != "" {
+		req.Header.Set(httputil.LastEventIDHeader, lastEventID)
 	}
 
 	// Add custom headers
@@ -679,7 +720,7 @@ func (t *streamableHTTPClientTransport) connectGetSSE(ctx context.Context) error
 		}
 	}
 
-	t.logger.Debugf("Attempting to establish GET SSE connection, session ID: %s", t.sessionID)
+	t.logger.Debugf("Attempting to establish GET SSE connection, session ID: %s", sessionID)
 
 	// Send request
 	resp, err := t.httpReqHandler.Handle(ctx, t.httpClient, req)
@@ -699,7 +740,7 @@ func (t *streamableHTTPClientTransport) connectGetSSE(ctx context.Context) error
 	}
 
 	// Handle response
-	t.logger.Debugf("GET SSE connection established, session ID: %s", t.sessionID)
+	t.logger.Debugf("GET SSE connection established, session ID: %s", sessionID)
 
 	// Handle SSE event stream
 	return t.handleGetSSEEvents(ctx, resp.Body)
@@ -732,7 +773,7 @@ func (t *streamableHTTPClientTransport) handleGetSSEEvents(ctx context.Context, 
 			if strings.HasPrefix(line, "id:") {
 				eventID = strings.TrimPrefix(line, "id:")
 				eventID = strings.TrimSpace(eventID)
-				t.lastEventID = eventID
+				t.setLastEventID(eventID)
 			} else if strings.HasPrefix(line, "data:") {
 				data := strings.TrimPrefix(line, "data:")
 				data = strings.TrimSpace(data)
@@ -751,7 +792,7 @@ func (t *streamableHTTPClientTransport) handleGetSSEEvents(ctx context.Context, 
 // Process SSE event.
 func (t *streamableHTTPClientTransport) processSSEEvent(eventID, eventData string) {
 	// Store the last event ID for connection recovery.
-	t.lastEventID = eventID
+	t.setLastEventID(eventID)
 
 	// Skip empty events.
 	if eventData == "" {
@@ -890,8 +931,8 @@ func (t *streamableHTTPClientTransport) sendResponseToServer(response interface{
 	}
 
 	// Add session ID if available
-	if t.sessionID != "" {
-		httpReq.Header.Set(httputil.SessionIDHeader, t.sessionID) // Use correct MCP protocol header: Mcp-Session-Id.
+	if sessionID := t.currentSessionID(); sessionID != "" {
+		httpReq.Header.Set(httputil.SessionIDHeader, sessionID) // Use correct MCP protocol header: Mcp-Session-Id.
 	}
 
 	var resp *http.Response
@@ -926,8 +967,8 @@ func (t *streamableHTTPClientTransport) terminateSession(ctx context.Context) er
 	}
 
 	// Set session ID header
-	if t.sessionID != "" {
-		httpReq.Header.Set(httputil.SessionIDHeader, t.sessionID)
+	if sessionID := t.currentSessionID(); sessionID != "" {
+		httpReq.Header.Set(httputil.SessionIDHeader, sessionID)
 	} else {
 		return fmt.Errorf("no active session")
 	}
@@ -954,7 +995,7 @@ func (t *streamableHTTPClientTransport) terminateSession(ctx context.Context) er
 	}
 
 	// Session successfully terminated, clear session ID
-	t.sessionID = ""
+	t.setSessionID("")
 
 	return nil
 }
@@ -968,6 +1009,8 @@ func (t *streamableHTTPClientTransport) terminateSession(ctx context.Context) er
 // If it returns true, the client is currently running in stateless mode and will not include
 // a session ID in requests or attempt to establish GET SSE connections.
 func (t *streamableHTTPClientTransport) isStatelessMode() bool {
+	t.stateMu.RLock()
+	defer t.stateMu.RUnlock()
 	return t.isStateless
 }
 
@@ -982,12 +1025,12 @@ func (t *streamableHTTPClientTransport) sendRequestWithStream(
 
 // establishGetSSEConnection attempts to establish a GET SSE connection if enabled
 func (t *streamableHTTPClientTransport) establishGetSSEConnection(ctx context.Context) {
-	if !t.enableGetSSE {
+	if !t.getSSEEnabled() {
 		t.logger.Debug("GET SSE is not enabled, will not establish GET SSE connection")
 		return
 	}
 
-	if t.sessionID == "" {
+	if t.currentSessionID() == "" {
 		t.logger.Debug("Session ID is empty, cannot establish GET SSE connection")
 		return
 	}
